@@ -30,7 +30,8 @@ RULE = ("one case = backend (every class in storage_registry) x geometry (full r
         "iff dump_in_subprocess), crash = process death before file-system event k of a dump or a persist (optionally tearing the write) followed by a "
         "restart that must find every element old or new; a quarter of the cases name the folder by a relative path and move the working directory "
         "(chdir) between operations; in half of the cases file modification times come from a virtual coarse clock "
-        "(0/1 tick per write) so that quick rewrites share a timestamp. distinct_nontrivial = distinct (backend, geometry, history) digests with at least one "
+        (0/1 tick per write) so that quick rewrites share a timestamp; 3% of the cases are agreement histories (the same operations on every shipped "
+        "backend with masked-array values along internal axes, results compared across backends); rare big cases (4100-8232 elements). distinct_nontrivial = distinct (backend, geometry, history) digests with at least one "
         "dump and one read")
 COMPONENTS = {
     "real": ["FileArray / DictArray / SharedMemoryDictArray (all public methods)", "normalize_key, select_by_mask, "
@@ -57,6 +58,28 @@ def gen_case(tape, tier):
                 "ops": [{"op": "dump", "key": [{"slice": [None, None, None]}], "value": 1},
                         {"op": "dump", "key": [tape.choose(n, "idx")], "value": 2},
                         {"op": "to_array", "splat": None}, {"op": "mask_linear"}, {"op": "get", "key": [n - 1]}]}
+    if tape.coin(0.03, "agreement"):
+        # values for which there is no single reference reading (masked arrays with masked entries stored along an internal
+        # axis): the property still demands that all backends agree with one another, operation by operation
+        rank = 2 + tape.choose(2, "rank")
+        full = [1 + tape.choose(3, "size") for _ in range(rank)]
+        mask = [True] + [False] * (rank - 1)
+        if rank == 3 and tape.coin(0.5, "second-external"):
+            mask[1] = True
+        ext = [s for s, m in zip(full, mask) if m]
+        ops = []
+        for j in range(3 + tape.choose(6, "nops")):
+            o = tape.pick(["dump", "dump", "get", "get", "to_array", "index", "mask_linear"], "op")
+            if o == "dump":
+                ops.append({"op": "dump", "key": [tape.choose(n, "idx") for n in ext], "value": j + 1,
+                            "masked_at": tape.choose(8, "masked-at")})
+            elif o == "get":
+                ops.append({"op": "get", "key": [tape.choose(n, "idx") if tape.coin(0.7, "int") else {"slice": [None, None, None]} for n in full]})
+            elif o == "to_array":
+                ops.append({"op": "to_array", "splat": tape.pick([None, True, False], "splat")})
+            else:
+                ops.append({"op": o})
+        return {"agree": True, "backend": "all", "full": full, "mask": mask, "ops": ops, "coarse_mtime": False, "relative": False}
     backend = tape.pick(sorted(b for b in storage_registry if b != "eager_dict"), "backend")  # shipped backends only
     rank = 1 + tape.choose(3, "rank")
     full = [1 + tape.choose(3, "size") for _ in range(rank)]
@@ -259,9 +282,77 @@ def run_case(case, exec_seed=None, exec_tape=None):
         os.chdir(cwd)  # histories with a relative folder move the working directory around
 
 
+def _run_agreement(case, tape):
+    """The same history on every shipped backend; what each operation returns (or raises) must be the same everywhere."""
+    from pipefunc.map import storage_registry
+
+    viol, probes = [], {"agreement_history": 1}
+    full, smask = tuple(case["full"]), tuple(case["mask"])
+    ext = tuple(s for s, m in zip(full, smask) if m)
+    internal = tuple(s for s, m in zip(full, smask) if not m)
+
+    def value(op):
+        data = np.empty(internal, dtype=object)
+        for j, idx in enumerate(np.ndindex(*internal)):
+            data[idx] = f"v{op['value']}." + ".".join(map(str, idx))
+        m = np.zeros(internal, dtype=bool)
+        m.flat[op["masked_at"] % m.size] = True
+        return np.ma.MaskedArray(data, mask=m)
+
+    def show(v):
+        try:
+            return repr(canon(v))[:400]
+        except Exception as e:  # noqa: BLE001
+            return f"<uncanonical {type(v).__name__}: {type(e).__name__}>"
+
+    with C.Scratch() as root, warnings.catch_warnings():
+        warnings.simplefilter("ignore")
+        sim = C.new_sim(tape, root, preempt=0.0)
+        seen = {}
+
+        def body():
+            for b in sorted(x for x in storage_registry if x != "eager_dict"):
+                arr = storage_registry[b](os.path.join(root, b), ext, internal, smask)
+                rec = []
+                for op in case["ops"]:
+                    try:
+                        if op["op"] == "dump":
+                            arr.dump(_key(op["key"]), value(op))
+                            rec.append("ok")
+                        elif op["op"] == "get":
+                            rec.append(show(arr[_key(op["key"])]))
+                        elif op["op"] == "to_array":
+                            rec.append(show(arr.to_array(splat_internal=op["splat"])))
+                        elif op["op"] == "mask_linear":
+                            rec.append(repr([bool(x) for x in arr.mask_linear()]))
+                        else:
+                            rec.append(repr([(bool(arr.has_index(i)), show(arr.get_from_index(i)) if arr.has_index(i) else None)
+                                             for i in range(int(np.prod(ext)))]))
+                    except Exception as e:  # noqa: BLE001
+                        rec.append(f"raised {type(e).__name__}")
+                seen[b] = rec
+
+        with sim:
+            sim.kernel.run(body)
+        simmanager.shutdown_all(sim)
+    names = sorted(seen)
+    for i, op in enumerate(case["ops"]):
+        outs = {b: seen[b][i] for b in names}
+        if len(set(outs.values())) > 1:
+            viol.append({"property": PID, "oracle": "agreement", "kind": f"backends-disagree:{op['op']}",
+                         "detail": {"step": i, "op": op, "results": outs, "full": case["full"], "mask": case["mask"]},
+                         "signature": {"backend": "all"}})
+            break
+    out = {"violations": viol, "probes": probes, "evaluations": 1, "yields": sim.kernel.steps, "sim_time": 0.0,
+           "exec_tape": tape.recorded(), "digest": sim.kernel.digest(), "nontrivial": [C.digest_of(case)], "sample": case}
+    return out
+
+
 def _run_case(case, exec_seed=None, exec_tape=None):
     C.begin_case()
     tape = Tape(exec_seed) if exec_tape is None else Tape(recorded=exec_tape)
+    if case.get("agree"):
+        return _run_agreement(case, tape)
     viol, probes = [], {}
     backend = case["backend"]
 
